@@ -45,3 +45,35 @@ Definition dispatch_sched (f : Z) (w : wire) : wire :=
       WL [WN bad; WL bounds; w_state s; WL (map (fun x => WN x) (rev (writes Z s)))]
   | _, _ => w_err
   end%Z.
+
+(* ---- ddmin: one task generator ---- *)
+From DD Require Import Model.SchedDdmin.
+Definition r_daction (w : wire) : daction :=
+  match w with
+  | WL [WN 0%Z] => DGen
+  | WL [WN 2%Z; WN i; b] => DWork (Z.to_nat i) (r_bool b)
+  | WL [WN 3%Z; WN i] => DConsume (Z.to_nat i)
+  | _ => DEndRound
+  end.
+(* table: [k, base, [cands]] *)
+Definition r_dcands (w : wire) : nat -> Z -> list Z :=
+  fun k b =>
+    match find (fun e => match e with WL [WN k'; WN b'; _] => Nat.eqb (Z.to_nat k') k && Z.eqb b' b | _ => false end) (r_list w) with
+    | Some (WL [_; _; l]) => map r_Z (r_list l)
+    | _ => []
+    end.
+Fixpoint dreplay_idx (cands : nat -> Z -> list Z) (accept : Z -> bool) (n : nat) (s : dst Z) (l : list daction) (k : Z) : Z * dst Z :=
+  match l with
+  | [] => ((-1)%Z, s)
+  | a :: r => match dexec Z cands accept n s a with
+              | Some s' => dreplay_idx cands accept n s' r (k + 1)%Z
+              | None => (k, s)
+              end
+  end.
+Definition dispatch_ddmin (f : Z) (w : wire) : wire :=
+  match f, w with
+  | 81, WL [WN n; WN i0; tbl; acc; acts] =>
+      let '(bad, s) := dreplay_idx (r_dcands tbl) (r_accept acc) (Z.to_nat n) (dinit Z i0) (map r_daction (r_list acts)) 0%Z in
+      WL [WN bad; WN (dcur Z s); w_bool (ddone Z s); WL (map (fun x => WN x) (rev (dwrites Z s)))]
+  | _, _ => w_err
+  end%Z.
